@@ -103,7 +103,7 @@ def _inlinable(v: ast.AST) -> bool:
     for n in ast.walk(v):
         if isinstance(n, (ast.Await, ast.Yield, ast.YieldFrom, ast.Lambda, ast.GeneratorExp, ast.ListComp, ast.SetComp, ast.DictComp)):
             return False
-    return len(norm(v)) <= 240
+    return len(norm(v)) <= 800
 
 
 def param_names(fn: T.Any) -> T.Dict[str, str]:
